@@ -126,9 +126,10 @@ func diffTraces(a, b []string) string {
 }
 
 type accSet struct {
-	hashes map[uint64]int64 // trace hash -> smallest micro-step producing it
-	ctx    map[uint64]string
-	n      int64
+	hashes   map[uint64]int64 // trace hash -> smallest micro-step producing it
+	ctx      map[uint64]string
+	n        int64
+	maxSteps int64 // longest model run with one abort (a fault may steer the program into a longer path)
 }
 
 // buildAcceptable runs the model with an abort at every micro-step (or every
@@ -152,6 +153,9 @@ func buildAcceptable(p *ir.Program, mkind int, free *model.Result, maxSteps int6
 			if _, ok := a.hashes[r.TraceHash]; !ok {
 				a.hashes[r.TraceHash] = m
 				a.ctx[r.TraceHash] = r.FiredCtx
+			}
+			if r.Steps > a.maxSteps {
+				a.maxSteps = r.Steps
 			}
 			a.n++
 		}
@@ -227,7 +231,13 @@ func (e *Engine) Run(t *core.Tape, cfg *core.Config, st *core.Stats) *core.Viola
 	if H != free.HostSteps {
 		return core.Violationf("trace-mismatch", "fault-free run made %d host calls, the model %d\n%s", H, free.HostSteps, desc())
 	}
+	// a fault may steer the program into a path that is much longer than the fault-free one: the step budget
+	// of a faulted run is generous, and a run that exhausts it is a violation only if the model says that no
+	// single-fault run of this program is long (60 VM steps per model micro-step is far above what is observed)
 	maxSteps := S*4 + 10000
+	if maxSteps < 150000 {
+		maxSteps = 150000
+	}
 
 	// attaching an undone context must not change behaviour
 	if t.Choose(4) == 0 {
@@ -279,7 +289,11 @@ func (e *Engine) Run(t *core.Tape, cfg *core.Config, st *core.Stats) *core.Viola
 			return mk("escape", "a Go panic left the top-level PCall: %s", r.out.Escaped)
 		}
 		if r.h.Runaway {
-			return mk("runaway-after-fault", "the run did not finish within %d steps after a single fault", maxSteps)
+			if a.maxSteps*60 >= maxSteps {
+				st.Probe("long_fault_path_discarded")
+				return nil
+			}
+			return mk("runaway-after-fault", "the run did not finish within %d steps after a single fault (the longest single-fault run of the reference model takes %d micro-steps)", maxSteps, a.maxSteps)
 		}
 		if len(r.viol) > 0 {
 			return mk(violClass(r.viol[0]), "%s", r.viol[0])
